@@ -173,8 +173,10 @@ class World(object):
             self.device = self.module.AdbDeviceAsync(MemTA(self.core, self.gate), banner=b'verif')
             self.sched = sched.TaskSched()
         io = self.device._io_manager
-        io._store_lock.name, io._transport_lock.name, self.device._local_id_lock.name = 's', 't', 'id'
-        _locks.by_name = {'s': io._store_lock, 't': io._transport_lock, 'id': self.device._local_id_lock}
+        idl, tl, sl = env.locks_of(self.device)
+        sl.name, tl.name, idl.name = 's', 't', 'id'
+        _locks.by_name = {'s': sl, 't': tl, 'id': idl}
+        self.tlock = tl
         self.io = io
         self.lid0 = lid0
         self.io_yield = False
@@ -310,7 +312,7 @@ class World(object):
             devs[s.lid] = dict(acks=len(s.acks), wait=s.await_ack, outq=sum(1 for x in s.data if x[0] == 'WRTE'))
         return dict(
             pc={t: self.sched.th[t].at for t in self.threads}, lid=dict(self.lids), nid=self.device._local_id,
-            tlock=self.io._transport_lock.holder or 'free',
+            tlock=self.tlock.holder or 'free',
             store=sorted([a0, a1, [c.decode() for c, _ in getattr(q, '_queue', q)]] for a1, m in st.items() for a0, q in m.items()),
             live=sorted([a0, a1] for (a0, a1) in getattr(self.io._packet_store, '_live', ())),
             d2h=[[f['pk']['cmd'], wire.unlimbs(f['pk']['a0']), wire.unlimbs(f['pk']['a1'])] for f in self.dev.wire],
